@@ -582,4 +582,29 @@ def linear_shape(ctx, s, dates):
                 if not ok and ("L2", key) not in seen:
                     seen.add(("L2", key))
                     ctx.violation("L2", f"{t}|{_impl(dag, t)}|boundary", dag.nodes[t].rule.where, f"at {d} ({label}) the transition-zone form of {t} gives {at_zone:.4f} at the upper zone boundary {upper:g} but the regular contribution there is {lb_[1]:.4f}: the reduced contribution does not meet the regular one (a step of {lb_[1] - at_zone:+.4f} EUR at the boundary wage)")
-    ctx.skip_budget("L1", 40) if hasattr(ctx, "skip_budget") else None
+    # L3: at the exact boundary wage the regime flags are what the predicates say (there both `in_gleitzone` and
+    # `regulär_beschäftigt` hold); employee AND employer contributions computed with those flags equal the zone form
+    ctx.rule("L3", "at the wage equal to the upper zone limit, with the regime flags computed by the predicates themselves, every employee and employer contribution equals its transition-zone form there (overlapping regime flags are not double counted)")
+    EMPLOYER = [t.replace("arbeitnehmer", "arbeitgeber") for t in TARGETS]
+    for d in dates:
+        dag = s.dag(d)
+        params, _, _ = s.em.params(d)
+        upper = float(params["sozialv_beitr"]["geringfügige_eink_grenzen_m"]["midijob"])
+        label, person = PERSON_SCENARIOS[0]
+        fz = LinFlow(s, dag, d, {**GLEIT, **person})
+        fb = LinFlow(s, dag, d, {"selbstständig": False, "rentner": False, **person, WAGE: upper})
+        for t in [*TARGETS, *EMPLOYER]:
+            if t not in dag.nodes:
+                continue
+            vz, vb = fz.node(t), fb.node(t)
+            lz, lb_ = (lin_of(vz) if vz is not None else None), (lin_of(vb) if vb is not None else None)
+            if lz is None or lb_ is None or lb_[0] != 0:
+                ctx.skip("L3", f"{t}@{d}", "not a linear form / concrete amount for the interpreter")
+                continue
+            at_zone = lz[0] * upper + lz[1]
+            ok = abs(at_zone - lb_[1]) <= 0.005
+            key = (t, _impl(dag, t))
+            ctx.ob("L3", ok=ok, distinct=(key, str(d)))
+            if not ok and ("L3", key) not in seen:
+                seen.add(("L3", key))
+                ctx.violation("L3", f"{t}|{_impl(dag, t)}|boundary-flags", dag.nodes[t].rule.where, f"at {d} and a wage of exactly {upper:g} (where the predicates make the person both in_gleitzone and regulär_beschäftigt) {t} is {lb_[1]:.4f}, its transition-zone form gives {at_zone:.4f}: the two regimes are both applied / neither is (employee + employer no longer add up to the total at the boundary)")
